@@ -38,7 +38,7 @@ func fnName(f *ssa.Function) string {
 		}
 		return fmt.Sprintf("%s$%d", fnName(f.Parent()), idx)
 	}
-	s := f.String()
+	s := refQ(f)
 	s = strings.ReplaceAll(s, modPath+"/", "")
 	s = strings.ReplaceAll(s, modPath+".", "main.")
 	return s
@@ -57,7 +57,7 @@ func qname(f *ssa.Function) string {
 	if f == nil {
 		return ""
 	}
-	return f.String()
+	return refQ(f)
 }
 
 func modQ(pkgSuffix, recv, name string) string {
@@ -80,7 +80,7 @@ func calleeOf(in ssa.Instruction) *ssa.Function {
 
 func calleeQ(cc *ssa.CallCommon) string {
 	if f := cc.StaticCallee(); f != nil {
-		return f.String()
+		return refQ(f)
 	}
 	if cc.IsInvoke() {
 		return "invoke " + cc.Method.FullName()
@@ -159,7 +159,7 @@ func isNamed(t types.Type, pkgPath, name string) bool {
 		return false
 	}
 	o := n.Obj()
-	return o.Name() == name && o.Pkg() != nil && o.Pkg().Path() == pkgPath
+	return tname(o) == name && o.Pkg() != nil && o.Pkg().Path() == pkgPath
 }
 
 func isPtrToNamed(t types.Type, pkgPath, name string) bool {
@@ -185,9 +185,9 @@ func isErrorType(t types.Type) bool {
 func typeName(t types.Type) string {
 	if n := namedOf(t); n != nil {
 		if n.Obj().Pkg() != nil {
-			return shortPkg(n.Obj().Pkg().Path()) + "." + n.Obj().Name()
+			return shortPkg(n.Obj().Pkg().Path()) + "." + tname(n.Obj())
 		}
-		return n.Obj().Name()
+		return tname(n.Obj())
 	}
 	return t.String()
 }
@@ -205,11 +205,11 @@ func jsonTag(tag string) string {
 
 // fieldInfo describes a struct field accessed by a FieldAddr or Field.
 type fieldInfo struct {
-	Struct *types.Named // may be nil for anonymous structs
+	Struct  *types.Named // may be nil for anonymous structs
 	StructT types.Type
-	Var    *types.Var
-	Index  int
-	Tag    string // json tag name, "" if none
+	Var     *types.Var
+	Index   int
+	Tag     string // json tag name, "" if none
 }
 
 func (fi fieldInfo) String() string {
@@ -219,7 +219,7 @@ func (fi fieldInfo) String() string {
 	} else if fi.StructT != nil {
 		sn = "anon"
 	}
-	return sn + "." + fi.Var.Name()
+	return sn + "." + vname(fi.Var)
 }
 
 func fieldOfAddr(x *ssa.FieldAddr) fieldInfo {
@@ -556,11 +556,31 @@ func factsAt(b *ssa.BasicBlock) []condFact {
 // normCond strips negations: returns the underlying condition and the truth.
 func normCond(v ssa.Value, truth bool) (ssa.Value, bool) {
 	for {
-		u, ok := v.(*ssa.UnOp)
-		if !ok || u.Op != token.NOT {
-			return v, truth
+		switch u := v.(type) {
+		case *ssa.UnOp:
+			if u.Op == token.NOT {
+				v, truth = u.X, !truth
+				continue
+			}
+		case *ssa.BinOp:
+			// `b == true`, `b != false`, `b == false`, `b != true`
+			if (u.Op == token.EQL || u.Op == token.NEQ) && isBoolType(u.X.Type()) {
+				other := u.X
+				k, ok := boolConstOf(u.Y)
+				if !ok {
+					k, ok = boolConstOf(u.X)
+					other = u.Y
+				}
+				if ok {
+					if (u.Op == token.EQL) != k {
+						truth = !truth
+					}
+					v = other
+					continue
+				}
+			}
 		}
-		v, truth = u.X, !truth
+		return v, truth
 	}
 }
 
@@ -658,7 +678,6 @@ func posOf(in ssa.Instruction) token.Pos {
 	return token.NoPos
 }
 
-
 // appendChain flattens `append(append(base, a...), b...)` (possibly through
 // single-store locals and phis with one real source) into the base value and
 // the list of element sources: each element is either a single value or a
@@ -719,7 +738,6 @@ func staticLenOf(t types.Type) (int64, bool) {
 	return 0, false
 }
 
-
 func calleeQOf(v ssa.Value) string {
 	if call, ok := v.(*ssa.Call); ok {
 		return calleeQ(&call.Call)
@@ -771,7 +789,6 @@ func (c *Ctx) globalStringArray(g *ssa.Global) ([]string, bool) {
 	return out, true
 }
 
-
 // sepOfIndexCall: for strings/bytes IndexByte(x, b) or Index(x, "b") with a
 // one-byte constant separator, the separator byte.
 func (c *Ctx) sepOfIndexCall(call *ssa.Call) (int64, bool) {
@@ -792,7 +809,6 @@ func (c *Ctx) sepOfIndexCall(call *ssa.Call) (int64, bool) {
 	}
 	return 0, false
 }
-
 
 // factsOnEdge: the facts at the end of block `from` plus, when `from` ends
 // in a branch, the outcome that leads to `to`.
